@@ -222,6 +222,69 @@ func (g *Gen) pointVal() model.Point {
 	return g.cachedPoint()
 }
 
+// tinyXPoint returns a curve point whose x is so small that x + p still fits
+// in 32 bytes (a non-canonical alias of x that a decoder must reject).
+func (g *Gen) tinyXPoint() model.Point {
+	for {
+		x := big.NewInt(int64(1 + g.r.N(4000)))
+		rhs := new(big.Int).Mul(x, x)
+		rhs.Mul(rhs, x)
+		rhs.Add(rhs, big.NewInt(7))
+		rhs.Mod(rhs, model.P)
+		if y, ok := model.SqrtP(rhs); ok {
+			if g.r.P(0.5) {
+				y.Sub(model.P, y)
+			}
+			return model.Point{X: x, Y: y}
+		}
+	}
+}
+
+// tinyYPoint returns a curve point with a tiny y (so that y + p fits in 32
+// bytes): x is a cube root of y^2 - 7, which exists for a third of the y.
+func (g *Gen) tinyYPoint() model.Point {
+	e := new(big.Int).Add(model.P, big.NewInt(2)) // p = 7 mod 9: c^((p+2)/9) is a cube root when one exists
+	e.Div(e, big.NewInt(9))
+	for {
+		y := big.NewInt(int64(1 + g.r.N(4000)))
+		v := new(big.Int).Mul(y, y)
+		v.Sub(v, big.NewInt(7))
+		v.Mod(v, model.P)
+		x := new(big.Int).Exp(v, e, model.P)
+		c := new(big.Int).Mul(x, x)
+		c.Mul(c, x)
+		c.Mod(c, model.P)
+		if c.Cmp(v) == 0 && model.OnCurve(x, y) {
+			return model.Point{X: x, Y: y}
+		}
+	}
+}
+
+// aliasCoordinates returns 32-byte coordinates of a curve point in which x,
+// y or both are replaced by their non-canonical alias (value + p).
+func (g *Gen) aliasCoordinates() (xb, yb []byte) {
+	var pt model.Point
+	which := g.r.N(3)
+	if which == 1 {
+		pt = g.tinyYPoint()
+	} else {
+		pt = g.tinyXPoint()
+	}
+	x, y := new(big.Int).Set(pt.X), new(big.Int).Set(pt.Y)
+	switch which {
+	case 0:
+		x.Add(x, model.P)
+	case 1:
+		y.Add(y, model.P)
+	default:
+		x.Add(x, model.P)
+		if yy := new(big.Int).Add(y, model.P); yy.Cmp(two256) < 0 {
+			y = yy
+		}
+	}
+	return be32(x), be32(y)
+}
+
 // goodElementBytes encodes p in a form the named decoder accepts.
 func (g *Gen) goodElementBytes(p model.Point, kind string) []byte {
 	switch kind {
@@ -262,7 +325,13 @@ func (g *Gen) badElementBytes(p model.Point) []byte {
 		}
 		return be32(v)
 	}
-	switch r.N(12) {
+	switch r.N(15) {
+	case 12, 13: // uncompressed form with a coordinate replaced by its alias value + p
+		xb, yb := g.aliasCoordinates()
+		return append(append([]byte{4}, xb...), yb...)
+	case 14: // compressed form of a tiny-x point with x + p
+		pt := g.tinyXPoint()
+		return append([]byte{byte(2 + pt.Y.Bit(0))}, be32(new(big.Int).Add(pt.X, model.P))...)
 	case 0:
 		c[0] = []byte{0, 1, 4, 5, 6, 7, 0xff}[r.N(7)]
 		return c
@@ -522,7 +591,9 @@ func (g *Gen) elementOp() Op {
 		}
 		x, y := be32(p.X), be32(p.Y)
 		if r.P(g.badRate) {
-			switch r.N(4) {
+			switch r.N(6) {
+			case 4, 5:
+				x, y = g.aliasCoordinates()
 			case 0:
 				y[31] ^= 1
 			case 1:
